@@ -85,3 +85,4 @@ Print Assumptions C11_errors_of_calls.
 Print Assumptions C11_resubscription_replaces.
 Print Assumptions C11_never_subscribed.
 Print Assumptions C11_spec_sound.
+Print Assumptions C11_inhabited.
